@@ -69,6 +69,29 @@ def check_ids(inp):
   m = model.eval_metrics['accuracy_no_eos']
   if shakespeare.EOS not in m.masked_target_values or shakespeare.PAD not in m.masked_target_values:
     return f'accuracy_no_eos masks {m.masked_target_values}, which does not contain the dataset EOS id {shakespeare.EOS}'
+  # Stack Overflow model: the in-vocabulary accuracy never credits a special label - OOV included - and the OOV rate counts
+  # exactly the tokenizer's OOV id (tokenizer built on a tiny vocabulary: no download)
+  from fedjax.datasets import stackoverflow as so_data
+  from fedjax.models import stackoverflow as so_model
+  vocab = ['the', 'a', 'cat', 'sat', 'on']
+  tok = so_data.StackoverflowTokenizer(vocab=vocab)
+  batch = tok.as_preprocess_batch(6)({'tokens': np.array([b'the cat zzz sat', b'qqq on a', b'xx yy'], dtype=object)})
+  V = len(vocab)
+  oov_id = V + 3
+  if int(batch['y'].max()) > oov_id or not (batch['y'] == oov_id).any():
+    return f'tokenizer labels {batch["y"].tolist()} do not use OOV id {oov_id} (test input must contain unknown words)'
+  smodel = so_model.create_lstm_model(vocab_size=V, embed_size=4, lstm_hidden_size=5, lstm_num_layers=1)
+  logits = jax.nn.one_hot(batch['y'], V + 4) * 10.0           # "perfect" predictions: every target is the argmax
+  y = np.asarray(batch['y'])
+  keep = (y != 0) & (y != 2)
+  want_acc = float(((y != oov_id) & (y > 2) & keep).sum() / keep.sum())
+  for nm, want in (('accuracy_in_vocab', want_acc), ('accuracy_no_eos', 1.0),
+                   ('token_oov_rate', float((y[y != 0] == oov_id).mean()))):
+    m = smodel.eval_metrics[nm]
+    got = float(fedjax.metrics.evaluate_batch(m, {'y': jnp.asarray(y)}, logits).result()) if hasattr(fedjax, 'metrics') else None
+    if got is None or abs(got - want) > 1e-6:
+      return (f'stackoverflow model {nm} on perfect predictions of tokenizer output with OOV words: {got}, the definition '
+              f'(special labels pad/bos/eos/oov = 0/1/2/{oov_id} never credited) gives {want}')
   # the packaged TASK wires dataset and model together: the model the task returns scores exactly the labels the task's
   # dataset produces and counts its OOV label (load_split stubbed with an in-memory split: no network)
   from fedjax.training import tasks
